@@ -191,6 +191,8 @@ pub struct JobResult {
     pub execs: u64,
     pub choice_points: u64,
     pub max_trace: usize,
+    /// longest wall time of one execution (ms)
+    pub max_exec_ms: u64,
     pub outcomes: HashSet<u64>,
     pub nontrivial_outcomes: HashSet<u64>,
     pub truncated: u64,
@@ -375,13 +377,28 @@ struct Shared {
     cv_m: Mutex<()>,
     heartbeat: AtomicU64,
     thread_init: Arc<dyn Fn() + Send + Sync>,
+    /// executions in progress, for the watchdog: (abandoned flag, job state, what is being run, since when)
+    running: Mutex<Vec<Running>>,
 }
+
+struct Running {
+    abandoned: Arc<std::sync::atomic::AtomicBool>,
+    state: Arc<Mutex<JobState>>,
+    pending: Pending,
+    since: Instant,
+}
+
+/// An execution of the controlled executor takes milliseconds. One that has not returned after this
+/// long is hung: library code blocks its thread (a lock outside the scc seam, e.g. a non-reentrant mutex
+/// taken twice) or loops without ever reaching a choice point.
+const EXECUTION_DEADLINE: Duration = Duration::from_secs(90);
 
 struct Current {
     shared: Arc<Shared>,
     state: Arc<Mutex<JobState>>,
     pending: Pending,
     log_fn: fn() -> Vec<String>,
+    run_token: Arc<std::sync::atomic::AtomicBool>,
 }
 
 thread_local! {
@@ -429,6 +446,18 @@ pub fn on_would_block() {
         // not inside an explorer-controlled execution (e.g. E4): let it park normally
         return;
     };
+    {
+        // this execution ends here: the watchdog must not account for it a second time
+        let mut run = cur.shared.running.lock().unwrap();
+        run.retain(|r| !Arc::ptr_eq(&r.abandoned, &cur.run_token));
+        if cur.run_token.load(Ordering::SeqCst) {
+            // the watchdog had already given it up
+            drop(run);
+            loop {
+                std::thread::park();
+            }
+        }
+    }
     let teardown = IN_TEARDOWN.with(|t| t.get());
     let (trace, diverged) = end();
     let stashed = STASH.with(|s| s.borrow_mut().take());
@@ -474,6 +503,7 @@ fn drive(shared: &Arc<Shared>, state: &Arc<Mutex<JobState>>, log_fn: fn() -> Vec
             (p, st.job.scenario.clone(), st.selfcheck_counter % 256 == 1)
         };
         let prefix = p.prefix();
+        let abandoned = Arc::new(std::sync::atomic::AtomicBool::new(false));
         CURRENT.with(|c| {
             *c.borrow_mut() = Some(Current {
                 shared: shared.clone(),
@@ -485,11 +515,32 @@ fn drive(shared: &Arc<Shared>, state: &Arc<Mutex<JobState>>, log_fn: fn() -> Vec
                     devs: p.devs,
                 },
                 log_fn,
+                run_token: abandoned.clone(),
             })
         });
+        shared.running.lock().unwrap().push(Running {
+            abandoned: abandoned.clone(),
+            state: state.clone(),
+            pending: Pending { parent: p.parent.clone(), cut: p.cut, alt: p.alt, devs: p.devs },
+            since: Instant::now(),
+        });
         begin(prefix.clone());
+        let exec_t0 = Instant::now();
         let verdict = scenario();
         let (trace, diverged) = end();
+        let exec_ms = exec_t0.elapsed().as_millis() as u64;
+        {
+            let mut run = shared.running.lock().unwrap();
+            run.retain(|r| !Arc::ptr_eq(&r.abandoned, &abandoned));
+        }
+        if abandoned.load(Ordering::SeqCst) {
+            // the watchdog gave this execution up (and has accounted for it and for this thread): it came back
+            // after all, so it was slow, not hung - but its thread has been replaced; leave quietly
+            CURRENT.with(|c| *c.borrow_mut() = None);
+            loop {
+                std::thread::park();
+            }
+        }
         shared.heartbeat.fetch_add(1, Ordering::Relaxed);
         // determinism self-check: 1 in 256 executions, and every violating one, is
         // re-run from its own choice list and must reproduce the same trace and outcome
@@ -510,6 +561,7 @@ fn drive(shared: &Arc<Shared>, state: &Arc<Mutex<JobState>>, log_fn: fn() -> Vec
         CURRENT.with(|c| *c.borrow_mut() = None);
         let mut st = state.lock().unwrap();
         st.in_flight -= 1;
+        st.res.max_exec_ms = st.res.max_exec_ms.max(exec_ms);
         if let Some(e) = extra_err {
             if st.res.machinery_errors.len() < 5 {
                 let name = st.job.name.clone();
@@ -587,6 +639,7 @@ pub fn run_jobs(
         cv_m: Mutex::new(()),
         heartbeat: AtomicU64::new(0),
         thread_init,
+        running: Mutex::new(Vec::new()),
     });
     let spawn = || {
         shared.active.fetch_add(1, Ordering::SeqCst);
@@ -613,6 +666,40 @@ pub fn run_jobs(
         }
         if shared.active.load(Ordering::SeqCst) == 0 && shared.respawn.load(Ordering::SeqCst) == 0 {
             break;
+        }
+        // watchdog: give up executions that have been running for too long
+        let overdue: Vec<Running> = {
+            let mut run = shared.running.lock().unwrap();
+            let mut out = Vec::new();
+            let mut i = 0;
+            while i < run.len() {
+                if run[i].since.elapsed() > EXECUTION_DEADLINE {
+                    out.push(run.remove(i));
+                } else {
+                    i += 1;
+                }
+            }
+            out
+        };
+        for r in overdue {
+            r.abandoned.store(true, Ordering::SeqCst);
+            let mut verdict = Verdict::default();
+            verdict.violate(
+                "execution-hung",
+                format!("the execution did not finish within {} s of wall time (an execution takes milliseconds): library code blocks its thread for ever outside the scc seam (e.g. a non-reentrant lock taken twice) or loops without yielding; replay = the recorded choices followed by default choices", EXECUTION_DEADLINE.as_secs()),
+            );
+            verdict.outcome_hash = 0x4a06_4a06;
+            let prefix = r.pending.prefix();
+            {
+                let mut st = r.state.lock().unwrap();
+                st.in_flight -= 1;
+                st.absorb(&r.pending, prefix, None, verdict, Outcome::ThreadBlocked);
+            }
+            maybe_finalize(&shared, &r.state);
+            shared.heartbeat.fetch_add(1, Ordering::Relaxed);
+            shared.blocked_threads.fetch_add(1, Ordering::SeqCst);
+            shared.active.fetch_sub(1, Ordering::SeqCst);
+            spawn();
         }
         let hb = shared.heartbeat.load(Ordering::Relaxed);
         if hb != last_hb {
